@@ -238,7 +238,7 @@ func (a *remoteAuthorizer) WithConfig(rawConfig map[string]any) (Authorizer, err
 		payload:     x.IfThenElse(conf.Payload != nil, conf.Payload, a.payload),
 		celEnv:      a.celEnv,
 		expressions: x.IfThenElse(len(expressions) != 0, expressions, a.expressions),
-		headersForUpstream: x.IfThenElse(len(conf.ResponseHeadersToForward) != 0,
+		headersForUpstream: x.IfThenElse(conf.ResponseHeadersToForward != nil,
 			conf.ResponseHeadersToForward, a.headersForUpstream),
 		ttl: x.IfThenElseExec(conf.CacheTTL != nil,
 			func() time.Duration { return *conf.CacheTTL },
